@@ -102,6 +102,12 @@ void run_width(const Case &c, pbt::Ctx &ctx) {
         static const char *pres_u[] = {"ab", "0", "d8", "x\\", "", "F"};
         static const char *posts[] = {"yz", "abc", "09", "Ff", "e5x", "d", "\\u0041", ""};
         static const char *posts_u[] = {"yz", "abc", "09", "Ff", "e5x", "d", "A", ""};
+        if (c.form == 4) { // the escape sits far into a long string (thousands of units in front of it), another one behind
+            static const unsigned lens[] = {4000, 16383, 16384, 16385, 20000, 66000};
+            const unsigned        L      = lens[(c.cp + (c.cp >> 8)) % 6];
+            doc.append(L, 'a');
+            pre.assign(L, 'a');
+        }
         if (c.form == 3) {
             const unsigned a = (c.cp * 7 + 1) % 6;
             doc += pres[a];
@@ -110,6 +116,12 @@ void run_width(const Case &c, pbt::Ctx &ctx) {
             }
         }
         doc += escape_text(c.cp, c.form);
+        if (c.form == 4) {
+            doc += " tail\\u0041";
+            for (const char *q = " tailA"; *q; ++q) {
+                post.push_back((unsigned char)*q);
+            }
+        }
         if (c.form == 3) {
             const unsigned b = (c.cp * 5 + (c.cp >> 10) + 3) % 8;
             doc += posts[b];
@@ -175,11 +187,11 @@ struct H {
             }
             return v;
         });
-        return gen::map(gen::tuple(cp, pbt::pick<int>({1, 2, 4}), pbt::range<int>(0, 3)), [](std::tuple<uint32_t, int, int> t) {
+        return gen::map(gen::tuple(cp, pbt::pick<int>({1, 2, 4}), pbt::range<int>(0, 79)), [](std::tuple<uint32_t, int, int> t) {
             Case c;
             c.cp    = std::get<0>(t);
             c.width = std::get<1>(t);
-            c.form  = std::get<2>(t);
+            c.form  = (std::get<2>(t) == 79) ? 4 : std::get<2>(t) % 4; // one case in eighty: the long-string form
             return c;
         });
     }
@@ -205,7 +217,7 @@ struct H {
         if (c.cp > 0x7F || c.form != 0) {
             ctx.nontrivial();
         }
-        ctx.label(c.form == 0 ? "direct" : c.form == 1 ? "escape-upper" : c.form == 2 ? "escape-lower" : "escape-embedded-mixed");
+        ctx.label(c.form == 0 ? "direct" : c.form == 1 ? "escape-upper" : c.form == 2 ? "escape-lower" : c.form == 3 ? "escape-embedded-mixed" : "escape-deep-in-a-long-string");
         ctx.label(c.cp < 0x80 ? "ascii" : c.cp < 0x800 ? "2-byte-range" : c.cp < 0x10000 ? "bmp" : "astral");
         switch (c.width) {
             case 1: run_width<char>(c, ctx); break;
@@ -226,6 +238,15 @@ struct H {
                 continue;
             }
             for (int width : {1, 2, 4}) {
+                if ((cp % 1009) == 7 || cp == 0x10000 || cp == 0xFFFF || cp == 0x10FFFF || cp == 0x80) { // a thin slice also in the long-string form
+                    Case c;
+                    c.cp    = cp;
+                    c.width = width;
+                    c.form  = 4;
+                    if (pbt::exec_case<H>(ctx, c) == pbt::Status::Fail) {
+                        return;
+                    }
+                }
                 for (int form = 0; form < 4; ++form) {
                     Case c;
                     c.cp    = cp;
